@@ -99,9 +99,8 @@ CHECKS = [
           "do not alias, and print/parse every signature of a bounded set in all formats; labelled bounded, not counted.",
   "design_ref": "DESIGN.md section 6 C16",
   "category": "proof",
-  "note": COMMON_NOTE + " Generic-SI products / quotients: bounded (1681 pairs x 1 value pair + operand-reuse sweep). The Quantity "
-          "construction contract (`cls(value, unit)`: ValueError for an undeclared unit, else SI value = value * factor) is assumed "
-          "(see C17); the conversion tables are uninterpreted maps constrained by 'entries are quantity classes' (checked by TInv).",
+  "note": COMMON_NOTE + " Generic-SI products / quotients: bounded (1681 pairs x 1 value pair + operand-reuse sweep). Quantity "
+          "construction is by the verified contracts of __new__ / __init__ (see C17); the conversion tables are uninterpreted maps constrained by 'entries are quantity classes' (checked by TInv).",
   "technique": "ground obligations over the live conversion tables (exhaustive evaluation); deductive verification of refusal / same-type / scaling clauses for a generic receiver; bounded native stand-ins for Quantity x Quantity and SI strings"},
  {"property_id": "C17",
   "text": "Quantity._val/__add__/__sub__/__neg__/__abs__/__eq__/__ne__/__lt__/__le__/__gt__/__ge__/as_unit/si and scaling by a plain "
@@ -118,10 +117,11 @@ CHECKS = [
           "listed as not checked); every name in __all__ exists.",
   "design_ref": "DESIGN.md section 6 C17",
   "category": "proof",
-  "note": COMMON_NOTE + " Assumed: construction `type(q)(x)` with unit None (float.__new__ through Quantity.__new__/__init__) yields "
-          "an object of q's class with SI value x * factor(base unit) and the base unit -- not verified (needs __new__ of a float "
-          "subclass), covered by the BOUNDED construction sweep, as are construction with a unit ('si = value * factor'), "
-          "displayvalue and str(). SI values are finite reals in the model; bit-identity claims are exact only where no arithmetic "
+  "note": COMMON_NOTE + " Construction is verified as well: Quantity.__new__ (SI value = value * factor of the given unit, of the "
+          "base unit when none is given; ValueError exactly for an undeclared unit or -- with a unit -- a value that is not exactly "
+          "float / int) and Quantity.__init__ (display unit); every construction inside the operators applies these two contracts. "
+          "Assumed: float.__new__(cls, x) yields a new object of class cls with float value x. displayvalue and str() are only in "
+          "the BOUNDED sweep. SI values are finite reals in the model; bit-identity claims are exact only where no arithmetic "
           "happens (as_unit); sums are equal over the reals and swept natively for rounding (same-unit and mixed-unit operands).",
   "technique": "deductive verification of the inherited operators for a generic receiver class over a ghost SI value; ground obligations over the live unit tables; bounded native sweeps; z3"},
  {"property_id": "C02",
